@@ -82,6 +82,10 @@ def sweep_cases(ctx: core.Ctx, rnd: random.Random, gens: list, repeats: int, *, 
         for fname, sname in reps[:6]:
             for bn in ("B1", "B9"):
                 add(fname, sname, "binary", by_name[bn], {}, "rep:" + fname)
+                add(fname, sname, "binary7", by_name[bn], {}, "rep:" + fname)
+                # a text file that is not valid UTF-8: the tool may refuse it, but not write a header the linter reads differently
+                add(fname, sname, "latin1", by_name[bn], {}, "rep:" + fname, must=False)
+                cases[-1]["steps"] = [dict(st_, req=dict(st_["req"], holders=["Jos\u00e9 M\u00fcller S\u00e0rl"])) for st_ in cases[-1]["steps"]]
         # templates that lose information: whatever the tool does, success may only be reported with a full read-back
         for tmpl in ("pydrop", "pydroplic"):
             add("sample.py", "python", "code", by_name["B9"], {"template": tmpl}, "rep:sample.py", must=False)
